@@ -154,3 +154,15 @@ def missing_anchors(P, F, names):
         elif k in ("DeclRefExpr", "MemberExpr"):
             have.add(n.get("n"))
     return sorted(set(names) - have)
+
+
+def resolve_alias(P, F, n):
+    """look through reference / const naming locals: the node a name stands for"""
+    from . import norm
+    nl = norm.naming_locals(P, F)
+    n = sc(n)
+    seen = 0
+    while n is not None and n.get("k") == "DeclRefExpr" and n.get("r") in nl.vals and seen < 10:
+        n = sc(nl.vals[n["r"]])
+        seen += 1
+    return n
